@@ -75,3 +75,60 @@ func RunFullVolume() []Mismatch {
 	}
 	return mms
 }
+
+// RunDirRemoved: the sink's directory (or a parent of it) disappears while the sink is alive - a clean-up job, a log
+// directory moved aside. The directory is created on demand: the next time the sink has to create a file (Reopen,
+// rotation) it creates the directory again and carries on.
+func RunDirRemoved() []Mismatch {
+	var mms []Mismatch
+	for _, sc := range []struct {
+		name     string
+		maxBytes int
+		toor     bool
+		viaOpen  string // reopen | rotate
+	}{{"reopen after rm -r", 0, false, "reopen"}, {"reopen after rm -r, plain name", 0, true, "reopen"}, {"size rotation after rm -r", 40, false, "rotate"}} {
+		// (with TimestampOnlyOnRotate a size rotation renames the active file, which is gone: that write honestly fails; not demanded)
+		root, err := os.MkdirTemp("", "vh-dir-")
+		if err != nil {
+			return []Mismatch{{Props: []string{"HARNESS"}, What: err.Error()}}
+		}
+		dir := filepath.Join(root, "logs", "audit")
+		fs := &eventlogger.FileSink{Path: dir, FileName: "sink.log", MaxBytes: sc.maxBytes, TimestampOnlyOnRotate: sc.toor}
+		write := func(id int) error {
+			e := &eventlogger.Event{Type: "t", Formatted: map[string][]byte{}}
+			e.FormattedAs(eventlogger.JSONFormat, Token(id, 24))
+			_, err := fs.Process(context.Background(), e)
+			return err
+		}
+		if err := write(1); err != nil {
+			mms = append(mms, Mismatch{Props: []string{"C15"}, What: sc.name + ": first write (directory created on demand)", Expected: "success", Observed: err.Error()})
+			os.RemoveAll(root)
+			continue
+		}
+		write(2) // 48 bytes: the next write finds the size limit reached
+		os.RemoveAll(filepath.Join(root, "logs"))
+		if sc.viaOpen == "reopen" {
+			if err := fs.Reopen(); err != nil {
+				mms = append(mms, Mismatch{Props: []string{"C15"}, What: sc.name + ": Reopen after the directory was removed must create it again", Expected: "success", Observed: err.Error()})
+			}
+		}
+		if err := write(3); err != nil {
+			mms = append(mms, Mismatch{Props: []string{"C15", "C08"}, What: sc.name + ": write after the directory was removed", Expected: "success", Observed: err.Error()})
+		} else {
+			l := List(dir, nil)
+			found := false
+			for _, f := range append(append([][]int{}, l.Ts...), l.Act) {
+				for _, id := range f {
+					if id == 3 {
+						found = true
+					}
+				}
+			}
+			if !found {
+				mms = append(mms, Mismatch{Props: []string{"C08"}, What: sc.name + ": event acknowledged after the directory was recreated is not in the files", Expected: "event 3 present", Observed: fmt.Sprint(l.Ts, l.Act, l.Err)})
+			}
+		}
+		os.RemoveAll(root)
+	}
+	return mms
+}
